@@ -68,6 +68,21 @@ def verify(chk, name, function, run, post, clause=None, replay=None, encoding="q
     return results
 
 
+class under:
+    """context manager for postconditions: element evaluations done inside are definedness-checked under `cond`
+    (e.g. the index of the element is in bounds)"""
+    def __init__(self, pr, cond):
+        self.ctx, self.cond = pr.ctx, cond
+
+    def __enter__(self):
+        self.ctx.pc.append(self.cond)
+        return self
+
+    def __exit__(self, *a):
+        self.ctx.pc.pop()
+        return False
+
+
 def fallback(chk, name, function, clause, why):
     """bounded native stand-in for a function the executor cannot take"""
     if clause is None:
